@@ -2,12 +2,14 @@
 from harness import core, gen_deser as G, gen_ser as S, pyrun
 from harness.ser_run import SProducer, C_SMODEL
 
-NEEDED = ["Ser/Model.v", "Ser/Spec.v", "Ser/Run.v", "Ser/Unfold.v", "Ser/Proofs.v"]
+NEEDED = ["Ser/Model.v", "Ser/Spec.v", "Ser/Run.v", "Ser/Unfold.v", "Ser/Proofs.v", "Ser/RoundTripInd.v", "Ser/CompileProofs.v"]
 
 C_IMAGE = ("(fun c : " + S.CASE_TYPE + " => let '(u, o, t, v, ob) := c in "
            "if (no_pass_through o && has_type u sfuel0 t v)%bool then "
            "(match ob with OOk out => image_matches (image u o sfuel0 t v) (Some out) | _ => false end) else true)")
 C_TYPED = ("(fun c : " + S.CASE_TYPE + " => let '(u, o, t, v, ob) := c in has_type u sfuel0 t v)")
+# the executable hypotheses of C04_compiled_serializer_computes_the_image_checked
+C_THEOREM = ("(fun c : " + S.CASE_TYPE + " => let '(u, o, t, v, ob) := c in cc_hyps u o sfuel0 sfuel0 t v)")
 
 
 def is_json(x):
@@ -97,6 +99,12 @@ def run(tier):
         R.violation("serialize disagrees with the documented image (Coq spec) on a well-typed value", c.to_json())
     typed = len(P.cases) - len(P.check("C04_typed", C_TYPED))
     R.hist["well_typed_cases"] = typed
+    S_HEADER_THM = "From AV Require Import Ser.RoundTripInd Ser.CompileProofs.\n"
+    outside, errs = core.run_coq_shards("C04_hyps", P.header() + S_HEADER_THM, [c.coq for c in P.cases], C_THEOREM,
+                                        item_type=S.CASE_TYPE, shard=250)
+    for k, e in errs:
+        R.broken.append(f"coq evaluation failed (C04_hyps shard {k}): {e[-300:]}")
+    R.hist["cases_within_the_proved_theorem"] = len(P.cases) - len(outside)
     # pass_through.dataclasses resolves a nested, non recursive dataclass whose fields are all identities to the identity
     # at compile time; the model keeps a reference (SRec) there: those cases are outside the model
     def nested_passthrough(c):
